@@ -130,7 +130,7 @@ def defer_measurements(
                     for condition in op.classical_controls
                     for indexed_key in (
                         [(condition.key, condition.index)]
-                        if isinstance(condition, value.KeyCondition)
+                        if isinstance(condition, (value.KeyCondition, value.BitMaskKeyCondition))
                         else [(k, -1) for k in condition.keys]
                     )
                 }
